@@ -165,3 +165,36 @@ Definition model_run (F : facts) (T : tables) (kw : bool) (ts : list ftype) (ops
 
 (* the specification's verdict on what the implementation holds *)
 Definition impl_well_typed (ts : list ftype) (vals : list sval) : bool := well_typed (combine ts vals).
+
+(* ---- histories over several records of one type ---- *)
+Definition obs_wstep := (bool * list (list sval))%type.    (* accepted?, every record's slots *)
+
+Fixpoint worlds_eqb (x : list (list sval)) (y : list (list sval)) : bool :=
+  match x, y with
+  | [], [] => true
+  | p :: x', q :: y' => svals_eqb p q && worlds_eqb x' y'
+  | _, _ => false
+  end.
+
+Fixpoint check_wsteps (F : facts) (E : env) (kw : bool) (ts : list ftype) (w : world) (ops : list wop)
+                      (exp : list obs_wstep) : bool :=
+  match ops, exp with
+  | [], [] => true
+  | o :: ops', (acc, obs) :: exp' =>
+      let (w', oc) := wstep F E kw ts w o in
+      Bool.eqb acc (accepted oc) && worlds_eqb (map (map snd) w') obs && check_wsteps F E kw ts w' ops' exp'
+  | _, _ => false
+  end.
+
+Definition case_world (F : facts) (T : tables) (kw : bool) (ts : list ftype) (ops : list wop) (exp : list obs_wstep) : bool :=
+  check_wsteps F (env_of T) kw ts [] ops exp.
+
+Fixpoint model_wsteps (F : facts) (E : env) (kw : bool) (ts : list ftype) (w : world) (ops : list wop)
+  : list (outcome * list (list sval)) :=
+  match ops with
+  | [] => []
+  | o :: ops' => let (w', oc) := wstep F E kw ts w o in (oc, map (map snd) w') :: model_wsteps F E kw ts w' ops'
+  end.
+
+Definition model_world (F : facts) (T : tables) (kw : bool) (ts : list ftype) (ops : list wop) :=
+  model_wsteps F (env_of T) kw ts [] ops.
